@@ -1131,7 +1131,9 @@ Outcome check_hist(const Case &c, Stats &st, bool raw) {
 }
 
 std::vector<std::string> hist_domains(const Tier &t) {
-  return domains_with(0, CAP_ARRAY | CAP_REGION | CAP_BV, !t.thorough);
+  // the thorough tier also runs the scalar histories on the array domains
+  // (their lattice operations wrap the base domain's in non-trivial ways)
+  return domains_with(0, (t.thorough ? 0 : CAP_ARRAY) | CAP_REGION | CAP_BV, !t.thorough);
 }
 
 // --- C03 / C04: the same engine; C04 histories are denser in lattice queries
